@@ -72,8 +72,25 @@ if (V / 'equiv').is_dir():
         what = str(meta.get('summary', ''))[:170].replace('|', '/').replace('\n', ' ')
         erows.append('| %s | %s | %s | %s | %s |' % (d.name, meta.get('property'), what,
                      ('yes' if r.get('quiet') else 'NO') if r else 'not run', cs))
+irows = ['| irrelevant edit | property | what changed observably | all checks quiet | checks run |', '|---|---|---|---|---|']
+ires = {}
+ip = V / 'irrelevant' / 'RESULTS.json'
+if ip.is_file():
+    ires = json.loads(ip.read_text())
+if (V / 'irrelevant').is_dir():
+    for d in sorted((V / 'irrelevant').iterdir()):
+        if not (d / 'meta.json').is_file():
+            continue
+        meta = json.loads((d / 'meta.json').read_text())
+        r = ires.get(d.name, {})
+        cs = '; '.join('%s: exit %d%s' % (q, c['exit'], ' (tie)' if c['exit'] == 1 and all('no-failing-input-found' in v for v in c['violations']) else '') for q, c in r.get('checks', {}).items())
+        what = str(meta.get('summary', ''))[:170].replace('|', '/').replace('\n', ' ')
+        irows.append('| %s | %s | %s | %s | %s |' % (d.name, meta.get('property'), what,
+                     ('yes' if r.get('quiet') else 'NO') if r else 'not run', cs))
 s = fill(s, 'OBLIGATIONS', rows)
 s = fill(s, 'SEEDED', srows)
+if '<!-- IRRELEVANT-BEGIN -->' in s:
+    s = fill(s, 'IRRELEVANT', irows)
 if '<!-- EQUIV-BEGIN -->' in s:
     s = fill(s, 'EQUIV', erows)
 p.write_text(s)
